@@ -243,7 +243,10 @@ pub fn make_req(k: u64, var: &str, rng: &mut Rng) -> (VhostUserSharedMsg, VhostU
     };
     let mut body = Vec::new();
     let args;
-    if k <= 8 {
+    if k == 2 {
+        // CONFIG_CHANGE_MSG: no body
+        args = json!({});
+    } else if k <= 8 {
         body.extend_from_slice(&u);
         args = json!({"uuid": hex(&u), "ubytes": bytes_json(&u)});
     } else {
@@ -309,6 +312,7 @@ pub fn run(cases: &[Value], trace: &mut Trace, seed: u64) {
             }
             _ => (Some(srv.as_ref().unwrap().tx.try_clone().unwrap()), None),
         };
+        let recvfault: Vec<i32> = case["recvfault"].as_array().map(|a| a.iter().map(|x| x.as_i64().unwrap_or(0) as i32).collect()).unwrap_or_default();
         let mut dead = false;
         for step in case["steps"].as_array().unwrap() {
             if dead {
@@ -356,6 +360,10 @@ pub fn run(cases: &[Value], trace: &mut Trace, seed: u64) {
                 "pair" => {
                     let s = srv.as_ref().unwrap();
                     let be = backend.clone().unwrap();
+                    if !recvfault.is_empty() {
+                        // the proxy's end of the channel (it reads the acknowledgement there)
+                        crate::eng_sender::arm_recv(&s.tx, &recvfault);
+                    }
                     let (tx, rx) = channel();
                     let f2 = req.file.as_ref().map(|f| f.try_clone().unwrap());
                     let t = std::thread::spawn(move || {
@@ -400,6 +408,9 @@ pub fn run(cases: &[Value], trace: &mut Trace, seed: u64) {
                     }
                     if !hang || res.is_some() || t.is_finished() {
                         let _ = t.join();
+                    }
+                    if !recvfault.is_empty() {
+                        crate::eng_sender::disarm_recv();
                     }
                     let calls = std::mem::take(&mut s.core.s.lock().unwrap().calls);
                     let lent_ok = req.file.as_ref().map(|f| fd_id(f.as_raw_fd()) != "closed").unwrap_or(true);
